@@ -364,7 +364,7 @@ def bounds(tier):
                 'window_alphabet_sizes': {str(l): len(window_alphabet(l, tier)) for l in (1, 2, 3)},
                 'strands': [False, True], 'dove_safe': [False, True], 'window_orders': ['as listed', 'reversed'],
                 'doubling': ['append', 'interleave']}
-    return {'pos_kinds': POS_KIND_NAMES[:8], 'pos_max_fragments': 6, 'pos_extra': {'kinds': POS_KIND_NAMES, 'max_fragments': 4},
+    return {'pos_kinds': POS_KIND_NAMES[:8], 'pos_max_fragments': 7, 'pos_extra': {'kinds': POS_KIND_NAMES, 'max_fragments': 5},
             'window_positions': 3, 'window_max_fragments': 3,
             'window_alphabet_sizes': {str(l): len(window_alphabet(l, tier)) for l in (1, 2, 3)},
             'strands': [False, True], 'dove_safe': [False, True], 'window_orders': ['as listed', 'reversed'],
